@@ -200,6 +200,18 @@ def enumerate_cases(tier):
             # last round: only try every op from the states found, do not expand further
             pass
     evidence_states["n"] = len(seen)
+    # the state key forgets *which* instance is cached (serial numbers are dropped), so sequences of lookups with and
+    # without arguments are enumerated on their own: every pattern of length <= 4 after each kind of registration
+    import itertools
+
+    for kind in ("factory", "instance"):
+        for n in (2, 3, 4):
+            for pat in itertools.product([False, True], repeat=n):
+                for via in ("mm_lang", "mm_for_file"):
+                    q = "beta" if via == "mm_lang" else "x.a"
+                    yield {"ops": [["reg_lang", "beta", "*.a", kind]] + [[via, q, k] for k in pat]}
+                yield {"ops": [["reg_lang", "beta", "*.a", kind]] + [[("mm_lang" if i % 2 else "mm_for_file"),
+                                                                     ("beta" if i % 2 else "x.a"), k] for i, k in enumerate(pat)]}
 
 
 evidence_states = {"n": 0}
